@@ -50,8 +50,12 @@ class InboundRules(Rule):
                 ex = fx["ex"]
                 p0 = ex.copies[0]
                 exp_acks.append(("PUBCOMP", p["id"]))
+                # (I8) if the broker sent copies that differ - which only a broker re-using the
+                # identifier of an open exchange does - the content of any copy is acceptable
+                alts = [(x["topic"], x["payload"].hex(), x["retain"]) for x in ex.copies[1:]
+                        if (x["topic"], x["payload"], x["retain"]) != (p0["topic"], p0["payload"], p0["retain"])]
                 exp_cbs.append((p0["topic"], p0["payload"].hex(), 2, set(x["dup"] for x in ex.copies), p0["retain"],
-                                p0["id"], ex.clean_reconnect_since))
+                                p0["id"], ex.clean_reconnect_since, alts))
                 L.probe("in_q2_release")
                 if ex.seq < (c.connack_seq or 0):
                     L.probe("in_q2_release_across_reconnect")
@@ -114,6 +118,10 @@ def _short(v):
 def _cb_match(cb, e):
     if len(cb) != 6:
         return False
+    if len(e) > 7 and e[7]:
+        for (tp, pl, rt) in e[7]:
+            if _cb_match(cb, (tp, pl, e[2], e[3], rt, e[5], e[6])):
+                return True
     payload = cb[1]
     if not (isinstance(payload, tuple) and payload[0] == "b" and payload[1] == e[1]):
         return False
